@@ -109,7 +109,9 @@ class RSTransport(asyncio.Protocol):
 
     # API exposed to session
     async def write(self, message):
-        await self._can_send.wait()
+        # The transport can pause writing again as soon as the first waiter has written
+        while not self._can_send.is_set():
+            await self._can_send.wait()
         if not self.is_closing():
             framed_message = self._framer.frame(message)
             self._asyncio_transport.write(framed_message)
